@@ -84,7 +84,10 @@ def run(ctx):
             uniq.append(i)
     items = uniq
     ref2 = ctx.ref_parse([dict(id=i["id"], text=i["text"]) for i in items])
-    rejected = [i for i in items if not ref2[i["id"]]["v8"] and not ref2[i["id"]]["acorn"]]
+    # a text rejected only because a name is declared twice is not a matter of syntax (xjs has no scope analysis)
+    redecl = lambda r: "already been declared" in (r.get("v8err") or "") or "already been declared" in (r.get("acornerr") or "")
+    ctx.cov["rejected_for_redeclaration_skipped"] = sum(1 for i in items if redecl(ref2[i["id"]]))
+    rejected = [i for i in items if not ref2[i["id"]]["v8"] and not ref2[i["id"]]["acorn"] and not redecl(ref2[i["id"]])]
     disagree = sum(1 for i in items if ref2[i["id"]]["v8"] != ref2[i["id"]]["acorn"])
     ctx.log("%d distinct corrupted texts, %d rejected by both reference parsers (%d reference disagreements skipped)"
             % (len(items), len(rejected), disagree))
